@@ -63,6 +63,10 @@ def plan(tier, seed):
                 ch.append({'k': 'single', 'scen': {'mode': mode, 'second': sec, 'K': K}})
         for kind in F_KINDS:
             ch.append({'k': 'single', 'scen': {'mode': 'f', 'second': kind, 'K': K}})
+        # an output file left behind by an earlier, failed run (truncated / garbage) already sits under the output name
+        for mode in ('j', 'jo'):
+            for stale in ('truncated', 'garbage', 'empty'):
+                ch.append({'k': 'single', 'scen': {'mode': mode, 'second': 'fine', 'K': K, 'stale': stale}})
         # stdout that reaches the device while the tool is still printing (terminal-like line buffering, tiny buffer),
         # for the JSON and the --hex rendering
         for kind in ('fine', 'filtered', 'undecodable'):
@@ -109,9 +113,18 @@ class Run:
         for n, b in self.inputs.items():
             with open(os.path.join(pels, n), 'wb') as f:
                 f.write(b)
+        self.stale = {}
+        if self.scen.get('stale') and self.expected_for_stale:
+            outdir = pels if self.scen['mode'] == 'j' else os.path.join(self.root, 'out')
+            for n, (sink, full) in self.expected_for_stale.items():
+                content = {'truncated': full[:len(full) // 3], 'garbage': b'{"stale": true}\n' * 5, 'empty': b''}[self.scen['stale']]
+                with open(os.path.join(outdir, sink), 'wb') as f:
+                    f.write(content)
+                self.stale[sink] = os.path.join(outdir, sink)
 
     def execute(self, expected=None):
         """expected: {input name: (sink name, full expected bytes)} from the fault-free run (None while recording)."""
+        self.expected_for_stale = expected
         self.build()
         pels = os.path.join(self.root, 'pels')
         mode = self.scen['mode']
@@ -125,6 +138,14 @@ class Run:
                 sink, full = expected[name]
                 info['complete'] = bytes(world.sinks.get(sink, b'')) == full
                 info['closed'] = bool(world.closed_ok.get(sink)) if mode != 'f' else True
+                if mode != 'f':
+                    # what is on disk under the output name right now (a stale file from an earlier run does not count)
+                    outdir = pels if mode == 'j' else os.path.join(self.root, 'out')
+                    try:
+                        with open(os.path.join(outdir, sink), 'rb') as fh:
+                            info['complete'] = info['complete'] and fh.read() == full
+                    except OSError:
+                        info['complete'] = False
             self.removed_at[name] = info
             return lambda: world.after(dev, 'remove', name)      # crash-after fires once the real unlink is done
 
@@ -215,6 +236,17 @@ _trace_cache = {}
 def baseline(scen):
     k = json.dumps(scen, sort_keys=True)
     if k not in _trace_cache:
+        if scen.get('stale'):
+            # expected outputs come from the run without the stale file; the op trace from the run with it
+            expected, _ = baseline({kk: v for kk, v in scen.items() if kk != 'stale'})
+            run = Run(scen, {})
+            try:
+                run.execute(expected)
+                log = list(run.world.log)
+            finally:
+                run.close()
+            _trace_cache[k] = (expected, log)
+            return _trace_cache[k]
         run = Run(scen, {})
         try:
             run.execute(None)
